@@ -70,7 +70,7 @@ def check_refs(name, text, by_name, result, all_results):
                 wanted.append(('network', n, opts))
         for v in refs.all_values(own, 'Volume'):
             src = v.split(':')[0]
-            if src.endswith('.volume'):
+            if src.endswith('.volume') and ':' in v:   # a value without ':' is a bare container path (anonymous volume), not a reference
                 wanted.append(('volume', src, v))
         for v in refs.all_values(own, 'Mount'):
             for tok in v.split(','):
@@ -90,7 +90,7 @@ def check_refs(name, text, by_name, result, all_results):
         if ty in ('build', 'pod'):
             for v in refs.all_values(own, 'Volume'):
                 src = v.split(':')[0]
-                if src.endswith('.volume'):
+                if src.endswith('.volume') and ':' in v:
                     wanted.append(('volume', src, v))
     if not wanted:
         return fails
